@@ -18,6 +18,8 @@ binding: spec -> code: TLC prints every case (CASE lines, -workers 1) and the pl
          nothing is compared in python, which only maps a rejected clause to a finding description (exception
          class, raising function) and orders the rejected records so that the simplest input becomes the replay.
 clauses: own_scope_total / own_roundtrip / own_inside_widening / own_outside_changed  (SdcLocation.scope_string),
+         own_neighbourhood (13 devices that differ in one element - other value / other letter case - filter each
+         other's scopes in one process: exactly the reference's Inside matrix),
          pub_total / pub_roundtrip / pub_inside_widening / pub_outside_changed        (mk_scopes after set_location),
          own_scope_grammar / pub_scope_grammar (the real scope read by the reference parser, '+' in a query accepted
          as blank or as itself), ref_scope_parsed (reference renderings with %20, upper and lower case hex, read by
@@ -180,6 +182,29 @@ class Real:
             ask(kw)
         return out, infos
 
+    def neighbourhood(self, l_dict: dict, others, absent=None) -> list[list[int]]:
+        """NP = 13 devices (Location.tla PopLoc): the location itself and, per element, a sibling with another value
+        (k = 1) and one with the other letter case (k = 3); every member filters the scopes of all members."""
+        base = {e: (txt(l_dict[e]) if l_dict[e] else None) for e in ELEMENTS}
+        pop = [dict(base)]
+        for i, e in enumerate(ELEMENTS):
+            for k in (1, 3):
+                kw = dict(base)
+                if l_dict[e]:
+                    kw[e] = txt(others[i][k - 1])
+                pop.append(kw)
+        locs = [self.SdcLocation(**kw) for kw in pop]
+        services = [self.service(f'urn:uuid:n{j}', [lo.scope_string]) for j, lo in enumerate(locs)]
+        ids = {id(s): j + 1 for j, s in enumerate(services)}
+        out = []
+        for lo in locs:
+            self.calls += 1
+            try:
+                out.append(sorted(ids[id(s)] for s in lo.filter_services_inside(services)))
+            except Exception:  # noqa: BLE001
+                out.append([0])
+        return out
+
     def publish(self, location):
         """set_location on a provider mdib, then mk_scopes -> (ScopesType, list of its sdc.ctxt.loc scope texts)."""
         mdib = self.mdib()
@@ -193,7 +218,7 @@ class Real:
 def drive_loc(real: Real, payload: dict, plan: dict) -> dict:
     c, loc, others = payload['c'], payload['loc'], payload['others']
     absent = None if c['absent'] == 'none' else ''
-    a: dict = {'scope_exc': '', 'scope': [], 'parsed': None, 'in_own': [],
+    a: dict = {'scope_exc': '', 'scope': [], 'parsed': None, 'in_own': [], 'neigh': [],
                'pub_exc': '', 'pub_n': 0, 'pub': [], 'pub_parsed': None, 'in_pub': []}
     empty_parse = {'exc': 'skipped', 'root': [], 'loc': {e: [] for e in ELEMENTS}}
     a['parsed'] = a['pub_parsed'] = empty_parse
@@ -213,6 +238,7 @@ def drive_loc(real: Real, payload: dict, plan: dict) -> dict:
     if scope is not None:
         a['parsed'] = real.parse(scope)
         a['in_own'], inf = real.verdicts(loc, others, plan, [scope])
+        a['neigh'] = real.neighbourhood(loc, others)
         if inf:
             infos['own_inside'] = inf[0]
     # 2. reference renderings (what any URI writer may produce) read by the real parser
@@ -323,7 +349,7 @@ def info_for(rec: dict, clause: str) -> dict:
     infos = rec.get('infos', {})
     base, _, via = clause.partition(':')
     keys = {'own_scope_total': ['own_scope_total'], 'own_roundtrip': ['parsed'], 'ref_scope_parsed': ['ref_lower', 'ref_upper'],
-            'own_inside_widening': ['own_inside'], 'own_outside_changed': ['own_inside'],
+            'own_inside_widening': ['own_inside'], 'own_outside_changed': ['own_inside'], 'own_neighbourhood': ['own_inside'],
             'pub_total': ['pub_total'], 'pub_roundtrip': ['pub_parsed'],
             'pub_inside_widening': ['pub_inside'], 'pub_outside_changed': ['pub_inside'],
             'filter_total': [via] if via else []}.get(base, [])
